@@ -337,6 +337,7 @@ bool World::run(uint64_t until, unsigned max_steps) {
       else if (p.kind == 1) { if (p.fn) p.fn(); }
       else if (p.kind == 3) { VSock *v = by_fd(p.fd); if (v) { v->eof = true; activity = true; } }
       service_contexts();
+      if (idle_hook) idle_hook();
       did = true;
       if (++steps > max_steps) { hit_cap = true; return false; }
     }
@@ -546,7 +547,9 @@ int __wrap_coap_socket_connect_tcp1(coap_socket_t *sock, const coap_address_t *l
   } else {
     lst->pending.push_back({v, nullptr});
   }
-  sock->flags |= COAP_SOCKET_CONNECTED;  // connect() completed at once (loopback behaviour)
+  // non-blocking connect in progress: completion is signalled through EPOLLOUT on the next I/O step
+  // (as with a real socket, this gives the application time to configure the session, e.g. the WebSocket host)
+  sock->flags |= COAP_SOCKET_WANT_CONNECT | COAP_SOCKET_CONNECTED;
   W->activity = true;
   return 1;
 }
